@@ -16,6 +16,7 @@ pub mod props_dnsconc;
 pub mod props_dnsfunc;
 pub mod props_dnsroute;
 pub mod props_dnswire;
+pub mod props_dnswire2;
 pub mod rfc1035;
 pub mod wire_dns;
 pub mod props_dhcp;
@@ -128,6 +129,10 @@ pub fn run_check(id: &str, tier: Tier) -> i32 {
             ctx.rule("bytes: (1) complete enumeration of the single-position family over harness-built seed packets of every protocol (each octet := 12 boundary values and +-1, each 16-bit position := 12 boundary values, every truncation point), (2) committed corpus, (3) generated multi-edit mutations (set/flip/truncate/insert/delete/duplicate) and random bytes 0..65535; each input goes through the decoder and then through what the handler does with the decoded value (option accessors, logging formatters, handle_pkt, reply serialisation, frame build); oracle: returns, no panic/overflow, < 30 s CPU; non-trivial = input accepted by the decoder (handler code ran) or a failure");
             ctx.assume("frames shorter than 14 octets cannot be delivered to the LLDP service by the kernel; the LLDP target starts after the Ethernet header");
             props_crash::run_c05_func(&ctx);
+            if wire_ok && ctx.violations.lock().unwrap().is_empty() {
+                ctx.rule("wire-dns: batches of 16..64 hostile byte strings (seed packets, members of the boundary family, extra edits) delivered to the real erbium-dns as UDP datagrams, as TCP frames, and as upstream replies over UDP and over TCP; after every batch: no panic line in the server log, process alive, a well-formed query over UDP and over TCP answered with its own answer");
+                props_dnswire2::run_c05_wire(&ctx);
+            }
         }
         "C02" => {
             ctx.rule("address-set: generated configurations (0..2 top-level addresses /22../30 with and without host bits; dhcp-policies trees depth<=3 width<=3 with match-subnet/match-hardware-address and apply-address/apply-subnet/apply-range blocks cut from one /22 so that parents, children and siblings overlap; receiving address on first/last/middle host, inside a child's block, or on another subnet) rendered to YAML and loaded through the real loader; oracle: documented set D from an independent model of erbium.conf(5); pools <= 300 addresses are drained with fresh client identifiers (leases == D exactly, each once), larger pools are probed with option 50 at every boundary; non-trivial = D non-empty and different from a plain host range");
@@ -143,6 +148,10 @@ pub fn run_check(id: &str, tier: Tier) -> i32 {
             ctx.rule("decision: generated ACL lists (0..6 rules or the documented defaults; match-subnets over IPv4/IPv6/::ffff-mapped prefixes of every length, with and without host bits; match-unix true/false/absent; any subset of the six access strings) rendered to YAML and loaded through the real loader; clients placed at the first/last address of a prefix, just before/after it, inside it, anywhere, as IPv4, IPv6, IPv4-mapped or unix; oracle: reference first-match model vs require_permission for the four operations incl. the refusal kind; non-trivial = a prefix written with host bits, a mapped client, or a case where rule order matters");
             ctx.assume("unconstrained (documentation silent): pure IPv4 client against an IPv6 prefix shorter than /96 that covers the mapped range; whether the http-ro alias grants the root page");
             props_acl::run_c08_func(&ctx);
+            if wire_ok && ctx.violations.lock().unwrap().is_empty() {
+                ctx.rule("wire-dns-acl: generated ACL lists over the addresses available on loopback (127/8 sub-prefixes, ::1, fd00:e::/64 sub-prefixes, ::ffff:127.x/96+n, with and without host bits) on a real erbium-dns with a dual-stack listener; clients from 8 source addresses over UDP and TCP ask a fresh name and a name another client may have put in the cache; oracle: first-match model: granted <=> own answer; refused => REFUSED (or silence on UDP), upstream never asked, also for cached names");
+                props_dnswire2::run_c08_wire(&ctx);
+            }
         }
         "C17" => {
             ctx.rule("build: generated interface sections (every field absent/null/value; lifetimes {0,1,8,600,1800,9000,9001,65535,65536,4294967,4294968,2^31,2^32-1,2^32,random} written as integers, '<n>s', mixed units or digit strings; 0..6 prefixes of any length with and without host bits; RDNSS 0..8 incl. $self6; DNSSL domains of 1..8 labels; PREF64 lengths {32,40,48,56,64,96}; URLs 0..240 octets) plus top-level defaults, rendered to YAML, loaded through the real loader, built by the pure builder, serialised, and decoded by a decoder written from RFC 4861/8106/8781/8910; oracle: decoded == expected(config), reserved fields zero, unrepresentable values rejected or clamped; non-trivial = >= 3 option kinds in the message or an unrepresentable value");
@@ -157,10 +166,19 @@ pub fn run_check(id: &str, tier: Tier) -> i32 {
         "C06" => {
             ctx.rule("cache-model: generated query sequences (keys with near misses: label/type/DO/CD/case; replies with 0..12 records, TTLs {0,1,2,59,600,2^31,2^32-1,random} over three sections, cached error kinds) x clock moves (fixed steps and placements at +-2 s around the entry's smallest TTL in 250 ms steps) x sweeps, driven through the cache's own functions in handle_query order under tokio's paused clock; oracle: reference cache model; non-trivial = near-miss lookup, hit within 1 s of expiry, or hit on a reply with >=2 distinct TTLs in >=2 sections");
             props_dnsfunc::run_c06_func(&ctx);
+            if wire_ok && ctx.violations.lock().unwrap().is_empty() {
+                ctx.rule("wire-cache: 40 (thorough 200) names with 1..5 records of TTL 1..4 s over the three sections through the real erbium-dns; right after the first resolution four near-miss queries (other type, DO set, CD set, class CH) must each reach the upstream; the exact query is repeated at +0.4..+5.4 s: answered from cache (upstream counter still) only within minTTL (+1 s clock slack), TTLs aged and never above the original");
+                props_dnswire2::run_c06_wire(&ctx);
+            }
         }
         "C16" => {
             ctx.rule("bucket: burst B and rate R inferred black-box, then generated arrival sequences (dt in {0,1,2,10,49,50,51,10^4} s, sizes 0..3.2B) applied check-then-deplete as the limiter does, on a harness clock; oracle: every window's granted volume <= B + R*span (+R per grant rounding), idle >= B/R => request <= B granted; non-trivial = grant after a denial or an idle gap");
             props_dnsfunc::run_c16_func(&ctx);
+            if wire_ok && ctx.violations.lock().unwrap().is_empty() {
+                ctx.rule("wire-limiter: on a fresh erbium-dns per case: (1) 1..4 sources that never spoke send one refused (ANY) query each over UDP and must get one REFUSED; (2) a burst of 200..2000 refused queries from one source gets REFUSED for at most a quarter, and not more than a 200-query burst from another source (+2); (3) a server cookie obtained from an answered query exempts a 60-query burst only with the same client cookie, source and server address; presented from another source, to another server address, with a flipped bit, with an invented server part or after a restart it does not");
+                ctx.assume("key rotation (24..36 h) cannot be driven in a running server: acceptance under the previous key and rejection after two rotations are not covered");
+                props_dnswire2::run_c16_wire(&ctx);
+            }
         }
         _ => {
             eprintln!("unknown property {}", id);
@@ -204,6 +222,7 @@ pub fn run_replay(path: &str) -> i32 {
             props_dnswire::replay(id, sub, case)
                 .or_else(|| props_dnsroute::replay(id, sub, case))
                 .or_else(|| props_dnsconc::replay(id, sub, case))
+                .or_else(|| props_dnswire2::replay(id, sub, case))
         }
     };
     match res {
